@@ -156,7 +156,7 @@ def satprofile_pairs(ctx, n):
     rng = ctx.rng
     for _ in range(n):
         case = core.gen_election(rng, btypes=("app", "app", "card", "cum", "ord"), m_lo=1) if rng.random() < 0.6 else core.gen_tight_election(rng, btypes=("app", "card"))
-        cfg = rulegen.gen_satprofile_cfg(rng, case, "mes", modes=("only", "other-measure", "other-measure", "empty"), allow_refuse=False)
+        cfg = rulegen.gen_satprofile_cfg(rng, case, "mes", modes=("only", "other-measure", "other-measure", "empty", "other-representation", "other-representation"), allow_refuse=False)
         if not cfg["res"] and len(case.projects) > 5:
             cfg["res"] = True
         ctx.count("stream", "sat_profile-argument:" + cfg["sp_mode"])
